@@ -103,6 +103,48 @@ pub fn run(args: &Args, rep: &mut Report) {
             emit("foreign-write", id, &o2, rep, &mut out);
         }
     }
+    // ---- raw directory contents the library's own writer never produces: stray and broken long-name runs, garbage
+    // slots, odd short entries. Decoding them must not depend on how the long-name buffer is allocated.
+    {
+        use crate::modes::c17::{bases, iterate, soup, IterRes};
+        let b = bases();
+        let per_shard = if thorough { 40_000 } else { 1_500 };
+        for k in 0..per_shard {
+            let id = k * nshards + shard;
+            let mut rng = Rng::derive(seed, 0xC195, id);
+            let slots = soup(&mut rng);
+            let in_sub = id % 3 == 0;
+            let (mut img, off, cap) = if in_sub { (b.sub_img.clone(), b.sub_off, b.sub_slots) } else { (b.root_img.clone(), b.root_off, b.root_slots) };
+            let mut bytes = Vec::new();
+            for sl in slots.iter().take(cap) {
+                bytes.extend_from_slice(sl);
+            }
+            img.write(off, &bytes);
+            let mut lines: Vec<String> = Vec::new();
+            match iterate(&img, in_sub) {
+                IterRes::Ok(seen) => {
+                    for e in seen {
+                        lines.push(format!("entry long={:?} short={:02x?} attr={:#04x} len={}", e.long, e.short, e.attr, e.len));
+                    }
+                }
+                IterRes::Err(ek) => lines.push(format!("iteration failed: {}", ek.name())),
+                IterRes::Panic(cls, _, budget) => lines.push(format!("iteration {}: {}", if budget { "did not terminate" } else { "panicked" }, cls)),
+            }
+            let mut f = Fnv::new();
+            for l in &lines {
+                f.str(l);
+            }
+            let _ = writeln!(out, "#CASE slot-soup {} image={} trace={:016x} lines={}", id, img.sha256(), f.get(), lines.len());
+            for l in &lines {
+                let _ = writeln!(out, "{}", l);
+            }
+            rep.evaluations += 1;
+            rep.count("cases:slot-soup", 1);
+            let mut d = Fnv::new();
+            d.str("slot-soup").u64(id);
+            rep.distinct.insert(d.get());
+        }
+    }
     if let Some(p) = args.get("trace-out") {
         let _ = std::fs::write(p, out);
     }
